@@ -1,6 +1,7 @@
 import Hls.Playlist.MediaStructure
 import Hls.Playlist.MediaNear
 import Hls.Playlist.MediaGrammarTime
+import Hls.Playlist.MediaFloat
 /-!
 # C15 — Playlist decoder is total; encoder output is grammatical M3U8 (MEDIA playlists)
 
@@ -91,6 +92,12 @@ open Hls.Playlist.MG in
 /-- the hypotheses are jointly satisfiable, with the real Go time layout -/
 theorem c15_codec_exists : Codec.exactGo.Valid ∧ TimeGrammatical Codec.exactGo :=
   ⟨Codec.exactGo_valid, go_TimeGrammatical Codec.exact⟩
+
+open Hls.Playlist.MG in
+/-- **No assumption left for the codec the driver runs** (`Codec.prim`: proven float envelope, proven Go
+time layout): its `Marshal` output of every well-formed value is accepted. -/
+theorem c15_grammar_driver (p : Media) (hw : WFMedia p) : accepts true (Media.marshal Codec.prim p) = true :=
+  c15_grammar Codec.prim Codec.prim_valid (go_TimeGrammatical Codec.prim) true p hw (Or.inl rfl)
 
 open Hls.Playlist.MG in
 /-- `TimeGrammatical` is PROVED for the Go layout: `Time.Format` output of a well-formed time is a
